@@ -50,3 +50,80 @@ TEXT["C20"] = {
          "Interpretation recorded in DESIGN.md: Fp<384>::one is dynamically initialised at load time (const in source, written once by a static initialiser) and is accepted as a load-time constant.",
  "technique": "Lean 4 proof (finite symbol tables + interleaving theorem) + multi-threaded differential runs",
 }
+
+TEXT["C03"] = {
+ "level": "Partial proof.  Theorems (shared with C02, generic in limb base and count): the portable BigInt/FpBase algorithms return, for all operands, limbs determined uniquely by the Nat-level contract "
+          "(sum/difference/double with carry flag, full product, square, (a+b)%p, (a-b)%p, 2a%p, Montgomery reduction out<p and out*R=T mod p), so the 64-bit-word and the 32-bit-word builds agree bit for bit "
+          "(canonical limbs are unique).  The x86-64 assembly (both families) has no instruction-level model yet: every routine is called directly, bypassing the dispatch table, and judged against the same contract "
+          "on boundary-directed operands (sums and doubles whose top word ties with q's, carry chains, T = p*R-1, top bits set), in the asm, forced-baseline, clang, -O0 and both portable configurations.",
+ "note": "AArch64 and ARMv6-M sources cannot be executed (no emulator/cross tools) nor, for Thumb-1, assembled here: not covered.  The tie between assembly and contract is differential, not a theorem; "
+         "the portable half is a theorem about hand-written models mirrored from the C++.",
+ "technique": "Lean 4 proof (portable algorithms, uniqueness of canonical limbs) + direct differential calls of every assembly routine",
+}
+TEXT["C05"] = {
+ "level": "Lean 4 theorems about the functions regenerated from curve.hpp on every run (Projective::add, mixed add, multiply2, negate, equal, from_affine, Affine::from_projective/negate/is_on_curve/equal; "
+          "both the Fq and the Fq2 instantiation): for every field K of characteristic != 2, every b, all Jacobian representatives (identity = z=0 with arbitrary x,y): toAffine(add p q) = p + q in the textbook chord-and-tangent law "
+          "by the code's own case split (either identity, equal points -> doubling detour, opposite points, generic), doubling, mixed addition, negation, equality <-> equal affine images, conversions with their z=0 / z=1 shortcuts, "
+          "results stay on the curve.  The Fq2 instantiation is proved equal to the generic code at F = Fq2 (using the C04 theorems).  Correspondence: every point function on boundary representatives against the Spec.",
+ "note": "Instantiating at Fq/Fq2 needs q prime and -1 a non-square (stated hypotheses: H-qprime; not yet proved in Lean).  The affine Spec is the chord-and-tangent law as a function; that it is a group law is classical and not re-proved.",
+ "technique": "Lean 4 proof (field_simp/ring over generated Jacobian formulas, case analysis) + differential correspondence",
+}
+TEXT["C06"] = {
+ "level": "Lean 4 theorems about hand-written models of wnaf.hpp / curve_fast_multiply.cpp / decomposition.cpp: for every k < 2^bits and every window the signed-digit recoding represents exactly k, has at most bits+1 digits "
+          "(the buffer size), digits are 0 or odd and < 2^w, non-adjacent; the table holds the odd multiples; table evaluation, double-and-add and their composition return k*P in any abelian group; the base-|x| decomposition recombines "
+          "to y (mod r) with digits in range for all y < 2^256; the GLV split satisfies c0 + c1*lambda = k (mod r) for every 256-bit k whatever the reciprocal approximation returns, and both halves fit.  "
+          "The pre-repair recoding is proved wrong at 2^256-1 (finding F1).  Correspondence: all entry points (endomorphism, Frobenius, wNAF, double-and-add, 128/512-bit overloads), recoding digits, GLV and x-adic outputs on boundary scalars.",
+ "note": "Partial: that (x,y)->(beta x,y) acts as lambda and the twisted Frobenius as q on the order-r subgroups (eigenvalue facts) is checked by the correspondence on subgroup points, not proved; the interleaved evaluation loops of "
+         "multiply_endomorphism/multiply_frobenius are compared with k*P but not modelled separately.",
+ "technique": "Lean 4 proof (induction over digits; closed numeric facts by kernel evaluation) + differential correspondence",
+}
+TEXT["C09"] = {
+ "level": "Lean 4 theorems about the hand-written encode/decode models: encodings have the stated lengths and flag bits; validating decode, as repaired, accepts exactly the strings the encoder produces for on-curve subgroup points "
+          "(uncompressed form and identity: equality of accepted set and result, proved; what it returns is on the curve, in the subgroup and re-encodes to the input); decode(encode P) = P for the uncompressed form and the identity; "
+          "the sign rule (compare on Montgomery representatives) is a strict total order.  Correspondence: every flag flip, x+q / y+q, off-curve, non-subgroup, padded identity, random strings, all four instantiations, through the C API.",
+ "note": "Partial: the compressed non-identity round trip needs 'y^2 = x^3+b => y = +-sqrt' (q prime) and is stated with that hypothesis explicit.  Trusted: hand models mirror curve.cpp (tied by the correspondence).",
+ "technique": "Lean 4 proof (case analysis of the decoder, byte-list lemmas) + differential correspondence against the canonical-decoding specification",
+}
+TEXT["C10"] = {
+ "level": "Lean 4 theorems: the rejection samplers return a value below the modulus for every byte stream, the value is the first acceptable (masked) draw, the stream position advances by exactly the bytes drawn; "
+          "hash-to-scalar = (bytes with top bit cleared) mod r by one conditional subtraction (2^255 < 2r).  Correspondence with the random source carried in the op line: scalar/field/Fq2 sampling with forced rejections, "
+          "G1/G2 generator sampling and identity derivation reproduced draw for draw (x, flag byte, try-and-increment, cofactor) and checked to lie in the order-r subgroup, hash-to-curve = first curve point from the hashed x.",
+ "note": "Partial: subgroup membership after cofactor clearing rests on H-card (the judge checks r*P = 0 on every sample); try-and-increment totality/first-hit is compared, not proved.",
+ "technique": "Lean 4 proof (sampler range/first-hit lemmas) + exact-stream differential correspondence",
+}
+_wk_note = ("Theorems are over abstract groups of exponent r with a bilinear map as explicit hypotheses (never axioms): transporting them to the concrete pairing uses H-bilinear.  "
+            "Models are hand-written mirrors of api.cpp's cursor loops, tied by the stateful correspondence (every group element of every produced object compared with the canonical value).")
+TEXT["C11"] = {
+ "level": "Lean 4 theorems: keygen, nondelegable_keygen, qualifykey, nondelegable_qualifykey, adjust_nondelegable and resamplekey map the canonical key of a pattern to the canonical key of the updated pattern for EVERY admissible list and every l; "
+          "by induction every key reachable from setup by admissible steps is canonical for the accumulated pattern with the summed randomiser, lists exactly the free slots in ascending order, and (bilinearity) decrypts every ciphertext its pattern opens; the master key decrypts.  "
+          "Correspondence: exhaustive-ish pattern histories (free/fixed/hidden), ids 0, r-1, r, r+1, 2^256-1, both omit-all settings, through the C API.",
+ "note": _wk_note, "technique": "Lean 4 proof (induction over slots and histories) + stateful differential correspondence",
+}
+TEXT["C12"] = {
+ "level": "Lean 4 theorems: exact decryption formula m * e(prod_ct - prod_key, g)^(s*rho) for canonical keys; with non-degeneracy it returns m iff the attribute vectors agree mod r; hidden/fixed slots are invariant under every step and an admissible list cannot give a hidden slot a value.  "
+          "Correspondence: mismatching decryptions (must differ from the message and equal the Spec pairing value), hidden-slot fill attempts through every qualification path, single-component ciphertext modifications.",
+ "note": _wk_note, "technique": "Lean 4 proof (abstract bilinear group) + stateful differential correspondence",
+}
+TEXT["C13"] = {
+ "level": "Lean 4 theorems: signing with a canonical key on a list that extends its pattern on free slots yields the canonical signature, which verifies; it verifies for another (list, message) iff the bound elements coincide (non-degeneracy explicit).  "
+          "Correspondence: sign/verify (direct and precomputed), changed message (incl. m+r which must verify), changed list, modified components, lists that set a hidden slot.",
+ "note": _wk_note, "technique": "Lean 4 proof (abstract bilinear group) + stateful differential correspondence",
+}
+TEXT["C14"] = {
+ "level": "Lean 4 theorems: adjust_precomputed(precompute(A), A, B) = precompute(B) for ALL lists and ALL identifier values (the repaired code reduces identifiers before subtracting); adjust_nondelegable(nd_qualify(parent, A), parent, A, B) = nd_qualify(parent, B) component for component.  "
+          "Correspondence: random and boundary list pairs (insert/delete/change/empty, ids >= r), chains of adjustments, encryption/signing through precomputed values.",
+ "note": _wk_note, "technique": "Lean 4 proof (merge-loop induction) + stateful differential correspondence",
+}
+TEXT["C15"] = {
+ "level": "Lean 4 theorems about the marshalling models: marshalled length = the length functions exactly, for every object; the length recovered from a marshalled buffer = the slot count; the 4-byte slot index round-trips.  "
+          "Correspondence (two-pass: bytes produced by the real marshal are fed back): every object type, both encodings, signatures on/off; unmarshal(marshal(x)) compared field by field with x; every single-byte corruption region must be rejected by validating unmarshal; LQ-IBE objects likewise.",
+ "note": "Partial: the full unmarshal(marshal(x)) = x theorem needs the compressed round trip of C09 (q prime).  Trusted: hand models mirror marshal.cpp.",
+ "technique": "Lean 4 proof (byte-list length arithmetic) + two-pass differential correspondence",
+}
+TEXT["C17"] = {
+ "level": "Partial proof.  Theorems: for every buffer length n and first byte, whenever length discovery accepts, the reader consumes exactly n bytes and every slot ends inside the buffer (all four encodings, params and secret keys); it rejects everything shorter than the minimum; "
+          "every struct overlaid on a caller buffer has alignment 1 (finite table regenerated from marshal.cpp, both word sizes - false before the repair of FreeSlotMarshalled).  Runtime side: the marshal/encoding/curve/scalar streams run under ASan+UBSan "
+          "with exact-size heap buffers on the assembly and the portable build.",
+ "note": "Absence of undefined behaviour in compiled C++ for every call sequence cannot be exhibited by a model: sanitizer runs are runtime evidence, not a theorem.",
+ "technique": "Lean 4 proof (length arithmetic for all n, layout table) + sanitizer runs",
+}
